@@ -5,8 +5,8 @@ import json, os, subprocess
 V = "/verif"
 CHECKS = {
  "C04": dict(
-   technique="TLA+ model (ReaderImpl/ReaderAbs) checked by TLC + trace validation of real bufiox readers by TLC",
-   text="TLC exhaustively checks that the implementation-shaped model of DefaultReader/BytesReader (real constants, every source fragmentation/fault within the cfg bounds) satisfies the C04 contract; the same actions then validate ~10^4-10^5 recorded executions of the real readers (bounded-exhaustive + random histories x source behaviours), event by event: ReaderAbs decides violations, ReaderImpl (ri/len/cap/pending/err after every call) binds the model to the code.",
+   technique="TLA+ model (ReaderImpl/ReaderAbs) checked by TLC (bounded) and, through a TLC-checked refinement to its integer core, by Apalache (inductive invariant, all sizes) + TLC-generated behaviours replayed on the real readers + trace validation of real bufiox readers by TLC",
+   text="TLC exhaustively checks that the implementation-shaped model of DefaultReader/BytesReader (real constants, every source fragmentation/fault within the cfg bounds) satisfies the C04 contract and refines the integer core Ind_BufReader, whose invariants and contract Apalache proves inductive for operands, streams, chunkings and capacities of any size; TLC prints the input history of every transition of the bounded model and the harness replays each maximal history on the real reader with a source scripted accordingly (Gen_BufReader); the same actions then validate ~10^5 recorded executions of the real readers (TLC-generated + bounded-exhaustive + random histories x source behaviours), event by event: ReaderAbs decides violations, ReaderImpl (ri/len/cap/pending/err after every call) binds the model to the code.",
    note="Trusted: TLC, the scripted source and pattern recogniser of the harness, the read-only hook bufiox.VerifState. Bounds: MC cfg constants (sizes incl. 4096/4097/9000, <=3 (quick) / 4 (thorough) operations, MaxEmpty scaled to 3 in MC, real 100 in traces); traces: histories up to 40 (quick) / 300 (thorough) operations.",
    design="6 C04, 4.1, App. C"),
  "C05": dict(
